@@ -137,14 +137,18 @@ class Fault:
         self.burst = d.get("burst", 1)
         self.min_step = d.get("min_step")
         self.op_index = d.get("op_index")
+        self.detail = d.get("detail")          # e.g. {"if_match": True}: only requests carrying that attribute
         self.seen = 0
         self.fired = 0
 
     PSEUDO_OPS = ("list_result", "sleep_hold")     # harness-level hook points, not storage calls
 
-    def matches(self, a: Actor, op: str, cls: str) -> bool:
+    def matches(self, a: Actor, op: str, cls: str, detail: Optional[dict] = None) -> bool:
         if self.fired >= self.burst:
             return False
+        if self.detail:
+            if not detail or any(detail.get(k) != v for k, v in self.detail.items()):
+                return False
         if op in self.PSEUDO_OPS and self.op != op:
             return False
         if self.actor is not None and self.actor != a.name:
@@ -645,7 +649,7 @@ class Sim:
     def seam(self, op: str, cls: str, target: str, do: Callable[[], Any],
              fail: Optional[Callable[[str], BaseException]] = None,
              value_fault: Optional[Callable[[dict], Any]] = None,
-             noyield: bool = False) -> Any:
+             noyield: bool = False, detail: Optional[dict] = None) -> Any:
         """Run one seam call of the current actor.
 
         op: operation name ("replace", "put", ...) ; cls: path class ("HINT", "META", ...)
@@ -668,7 +672,7 @@ class Sim:
             self.steplog.append((a.name, a.step, p.seam_count, op, cls, target))
         after: Optional[Fault] = None
         for f in self.faults:
-            if f.matches(a, op, cls):
+            if f.matches(a, op, cls, detail):
                 f.fired += 1
                 k = f.kind
                 self.fired[k] += 1
